@@ -74,8 +74,8 @@ theorem skipL_req {cfg : Cfg} {l m u : Bytes} (rest : List Bytes) (h : IsReq cfg
   have : ¬ c = 35 := by omega
   simp [this]
 
-theorem requestLine_req {cfg : Cfg} {l m u : Bytes} (h : IsReq cfg l m u) :
-    requestLine cfg (m ++ 32 :: u) = .ok { method := m, url := u, body := cfg.body, header := cfg.hdr } := by
+theorem requestLine_req {cfg : Cfg} {l m u : Bytes} (hdr : HMap) (h : IsReq cfg l m u) :
+    requestLine cfg (m ++ 32 :: u) hdr = .ok { method := m, url := u, body := cfg.body, header := hdr } := by
   have hs : splitFirst 32 (m ++ 32 :: u) = some (m, u) := by
     apply splitFirst_append
     intro hin; have := h.upper 32 hin; omega
@@ -83,17 +83,13 @@ theorem requestLine_req {cfg : Cfg} {l m u : Bytes} (h : IsReq cfg l m u) :
 
 /-! ### the peek rule -/
 
-theorem returns_blank {p : Bytes} (h : IsBlank p) : returnsAfterPeek p = true := by
+theorem returns_blank {p : Bytes} (h : IsBlank p) : returnsAfterPeek (trimSpace p) = true := by
   simp [returnsAfterPeek, show trimSpace p = [] from h]
 
-theorem returns_req {cfg : Cfg} {p m u : Bytes} (h : IsReq cfg p m u) : returnsAfterPeek p = true := by
+theorem returns_req {cfg : Cfg} {p m u : Bytes} (h : IsReq cfg p m u) : returnsAfterPeek (trimSpace p) = true := by
   simp [returnsAfterPeek, h.trim, startsWithHTTPMethod_request m u h.mne h.upper]
 
-theorem returns_comment {p : Bytes} (h : IsComment p) : returnsAfterPeek p = false := by
-  obtain ⟨t, ht⟩ := h
-  simp [returnsAfterPeek, ht, startsWithHTTPMethod, isUpper]
-
-theorem returns_hdr {p k v : Bytes} (h' : IsHdr p k v) : returnsAfterPeek p = false := by
+theorem returns_hdr {p k v : Bytes} (h' : IsHdr p k v) : returnsAfterPeek (trimSpace p) = false := by
   obtain ⟨mid, h⟩ := h'
   have hk : startsWithHTTPMethod (k ++ 58 :: (mid ++ v)) = false :=
     startsWithHTTPMethod_key k _ (fun c hc => (h.plain c hc).1)
@@ -103,8 +99,73 @@ theorem returns_hdr {p k v : Bytes} (h' : IsHdr p k v) : returnsAfterPeek p = fa
     simp only [returnsAfterPeek, h.trim, hk]
     simp [hkk]
 
-theorem returns_body {cfg : Cfg} {p q content : Bytes} (h : IsBody cfg p q content) : returnsAfterPeek p = false := by
+theorem returns_body {cfg : Cfg} {p q content : Bytes} (h : IsBody cfg p q content) :
+    returnsAfterPeek (trimSpace p) = false := by
   simp [returnsAfterPeek, h.1, startsWithHTTPMethod, isUpper]
+
+theorem trim_ne_nil {p : Bytes} (h : trimSpace p ≠ []) : p ≠ [] := by
+  intro h0; rw [h0] at h; exact h (by decide)
+
+theorem peekL_comment {c : Bytes} (r : List Bytes) (lastc : Bytes) (h : IsComment c) : peekL (c :: r) lastc = peekL r c := by
+  obtain ⟨t, ht⟩ := h
+  simp [peekL, ht]
+
+/-- a line that is not a comment and not exactly empty: the decision is made on it and it
+stays to be delivered -/
+theorem peekL_line {p : Bytes} (r : List Bytes) (lastc : Bytes) (h35 : (trimSpace p).head? ≠ some 35) (hne : p ≠ []) :
+    peekL (p :: r) lastc = (trimSpace p, p :: r) := by
+  simp [peekL, h35, afterPeek, hne]
+
+theorem peekL_comments (C : List Bytes) (hC : ∀ c ∈ C, IsComment c) (T : List Bytes) (lastc : Bytes) :
+    peekL (C ++ T) lastc = peekL T (C.getLast?.getD lastc) := by
+  induction C generalizing lastc with
+  | nil => rfl
+  | cons c r ih =>
+    rw [List.cons_append, peekL_comment _ _ (hC c (by simp)), ih (fun x hx => hC x (by simp [hx]))]
+    cases r <;> simp [List.getLast?_cons]
+
+/-- after a bare request line: filler lines, then nothing or a request line — the call returns,
+and only filler lines (possibly none) are left in front of what follows -/
+theorem peekL_fillers {cfg : Cfg} (F X : List Bytes) (hF : ∀ l ∈ F, IsFiller l)
+    (hX : X = [] ∨ ∃ l m' u' rest, X = l :: rest ∧ IsReq cfg l m' u') :
+    ∀ lastc, (lastc = [] ∨ IsFiller lastc) →
+      ∃ G', (∀ l ∈ G', IsFiller l) ∧ (peekL (F ++ X) lastc).2 = G' ++ X ∧
+        returnsAfterPeek (peekL (F ++ X) lastc).1 = true := by
+  induction F with
+  | nil =>
+    intro lastc hl
+    rcases hX with hx | ⟨l, m', u', rest, hx, hreq⟩
+    · subst hx
+      refine ⟨if lastc = [] then [] else [lastc], ?_, by simp [peekL], by simp [peekL, returnsAfterPeek]⟩
+      intro l hl'
+      split at hl'
+      · cases hl'
+      · rename_i hne
+        simp at hl'; subst hl'
+        rcases hl with h0 | h0
+        · exact absurd h0 hne
+        · exact h0
+    · subst hx
+      have hne : l ≠ [] := trim_ne_nil (by rw [hreq.trim]; cases hm : m' <;> simp)
+      have h35 : (trimSpace l).head? ≠ some 35 := by
+        obtain ⟨c, t, hm, hc⟩ := req_head hreq
+        rw [hreq.trim, hm]; simp; omega
+      refine ⟨[], by simp, by simp [peekL_line _ _ h35 hne], ?_⟩
+      simp only [List.nil_append, peekL_line _ _ h35 hne]
+      exact returns_req hreq
+  | cons f F1 ih =>
+    intro lastc _
+    have hF1 : ∀ l ∈ F1, IsFiller l := fun l hl => hF l (by simp [hl])
+    rcases hF f (by simp) with hb | hc
+    · -- a blank line: the call returns; consumed when exactly empty, else delivered again
+      have h35 : (trimSpace f).head? ≠ some 35 := by rw [show trimSpace f = [] from hb]; simp
+      have hp : peekL (f :: (F1 ++ X)) lastc = (trimSpace f, afterPeek (f :: (F1 ++ X))) := by simp [peekL, h35]
+      rw [List.cons_append, hp]
+      by_cases h0 : f = []
+      · exact ⟨F1, hF1, by simp [afterPeek, h0], returns_blank hb⟩
+      · exact ⟨f :: F1, hF, by simp [afterPeek, h0], returns_blank hb⟩
+    · rw [List.cons_append, peekL_comment _ _ hc]
+      exact ih hF1 f (Or.inr (Or.inr hc))
 
 /-! ### the header loop, line by line -/
 
@@ -200,6 +261,52 @@ theorem headerL_fillers (cfg : Cfg) (G X : List Bytes) (hG : ∀ l ∈ G, IsFill
       obtain ⟨G', g1, g2⟩ := ih (fun l hl => hG l (by simp [hl])) hsep'
       exact ⟨G', g1, by simp only [List.cons_append, headerL, step_comment tgt h hc]; exact g2⟩
 
+def AItem.isHdr : AItem → Bool
+  | .hdr _ _ _ => true
+  | .cmt _ => false
+
+theorem ownOf_append (a b : List AItem) : ownOf (a ++ b) = ownOf a ++ ownOf b := by
+  induction a with
+  | nil => rfl
+  | cons it r ih => cases it <;> simp [ownOf, ih]
+
+theorem ownOf_comments (C : List AItem) (h : ∀ it ∈ C, it.isHdr = false) : ownOf C = [] := by
+  induction C with
+  | nil => rfl
+  | cons it r ih =>
+    cases it with
+    | hdr l k v => have := h (.hdr l k v) (by simp); simp [AItem.isHdr] at this
+    | cmt l => simp [ownOf, ih (fun x hx => h x (by simp [hx]))]
+
+theorem comments_lines (C : List AItem) (hok : ∀ it ∈ C, it.OK) (h : ∀ it ∈ C, it.isHdr = false) :
+    ∀ l ∈ C.map AItem.line, IsComment l := by
+  intro l hl
+  simp only [List.mem_map] at hl
+  obtain ⟨it, hit, rfl⟩ := hl
+  cases it with
+  | hdr l k v => have := h _ hit; simp [AItem.isHdr] at this
+  | cmt l => exact hok _ hit
+
+/-- the items are comment lines only, or comment lines followed by a first header line -/
+theorem items_split (items : List AItem) :
+    (∀ it ∈ items, it.isHdr = false) ∨
+    ∃ C l k v its2, items = C ++ AItem.hdr l k v :: its2 ∧ ∀ it ∈ C, it.isHdr = false := by
+  induction items with
+  | nil => left; intro it hit; cases hit
+  | cons it r ih =>
+    cases it with
+    | hdr l k v => exact Or.inr ⟨[], l, k, v, r, rfl, by intro it hit; cases hit⟩
+    | cmt l =>
+      rcases ih with h | ⟨C, l', k, v, its2, h1, h2⟩
+      · left; intro it hit; simp at hit; rcases hit with rfl | hit
+        · rfl
+        · exact h it hit
+      · right
+        refine ⟨.cmt l :: C, l', k, v, its2, by simp [h1], ?_⟩
+        intro it hit; simp at hit; rcases hit with rfl | hit
+        · rfl
+        · exact h2 it hit
+
 structure ABlock where
   lead  : List Bytes                          -- raw filler lines before the request line
   req   : Bytes
@@ -222,16 +329,16 @@ def ABlock.result (cfg : Cfg) (b : ABlock) (h : Heap) : Target × Heap :=
      body := match b.body with
        | some x => x.2.2
        | none => cfg.body
-     header := (applyOwn cfg.hdr h (ownOf b.items)).1 },
-   (applyOwn cfg.hdr h (ownOf b.items)).2)
+     header := (built cfg h (ownOf b.items)).1 },
+   (built cfg h (ownOf b.items)).2)
 
 /-- **One block**: in front any filler lines `F`, behind the block filler lines `G` and then
-either nothing or a request line.  If the block has no body line and something follows, then
-either nothing at all separates the bare request line from the next one or `G` has a blank line. -/
+either nothing or a request line.  If the block has header lines but no body line and
+something follows, `G` has a blank line. -/
 theorem callL_block (cfg : Cfg) (b : ABlock) (hb : b.OK cfg) (F G X : List Bytes) (h : Heap)
     (hF : ∀ l ∈ F, IsFiller l) (hG : ∀ l ∈ G, IsFiller l)
     (hX : X = [] ∨ ∃ l m' u' rest, X = l :: rest ∧ IsReq cfg l m' u')
-    (hsep : b.body = none → X ≠ [] → (b.items = [] ∧ G = []) ∨ ∃ l ∈ G, IsBlank l) :
+    (hsep : b.body = none → (∃ it ∈ b.items, it.isHdr = true) → X ≠ [] → ∃ l ∈ G, IsBlank l) :
     ∃ G', (∀ l ∈ G', IsFiller l) ∧
       callL cfg (F ++ b.req :: (b.items.map AItem.line ++ b.bodyLines ++ G ++ X)) h =
         (.ok (b.result cfg h).1, G' ++ X, (b.result cfg h).2) := by
@@ -239,7 +346,7 @@ theorem callL_block (cfg : Cfg) (b : ABlock) (hb : b.OK cfg) (F G X : List Bytes
       some (b.m ++ 32 :: b.u, b.items.map AItem.line ++ b.bodyLines ++ G ++ X) := by
     rw [skipL_fillers F _ hF, skipL_req _ hb.req]
   unfold callL
-  simp only [hskip, requestLine_req hb.req]
+  simp only [hskip, requestLine_req _ hb.req]
   -- the tail after all items
   have htail : ∀ (tgt : Target) (hh : Heap),
       (b.body ≠ none ∨ X = [] ∨ ∃ l ∈ G, IsBlank l) →
@@ -259,86 +366,72 @@ theorem callL_block (cfg : Cfg) (b : ABlock) (hb : b.OK cfg) (F G X : List Bytes
         · exact h1
       obtain ⟨G', g1, g2⟩ := headerL_fillers cfg G X hG hsep' tgt hh
       exact ⟨G', g1, by simpa [ABlock.bodyLines, hbody] using g2⟩
-  cases hitems : b.items with
-  | cons it its =>
-    -- the peeked line is a header or a comment line
-    have hit : it.OK := hb.items it (by simp [hitems])
-    have hret : returnsAfterPeek (((it :: its).map AItem.line ++ b.bodyLines ++ G ++ X).head?.getD []) = false := by
-      cases it with
-      | hdr l k v => simpa [AItem.line] using returns_hdr hit
-      | cmt l => simpa [AItem.line] using returns_comment hit
-    simp only [hret, Bool.false_eq_true, ↓reduceIte]
+  rcases items_split b.items with hall | ⟨C, l, k, v, its2, hitems, hC⟩
+  · -- comment lines only
+    have hCl := comments_lines b.items hb.items hall
+    have hown : ownOf b.items = [] := ownOf_comments b.items hall
+    cases hbody : b.body with
+    | some x =>
+      have hx := hb.body x hbody
+      have hxne : x.1 ≠ [] := trim_ne_nil (by rw [hx.1]; simp)
+      have h35 : (trimSpace x.1).head? ≠ some 35 := by rw [hx.1]; simp
+      have hR : b.items.map AItem.line ++ b.bodyLines ++ G ++ X = b.items.map AItem.line ++ (x.1 :: (G ++ X)) := by
+        simp [ABlock.bodyLines, hbody]
+      rw [hR, peekL_comments _ hCl, peekL_line _ _ h35 hxne]
+      simp only [returns_body hx, Bool.false_eq_true, ↓reduceIte, headerL, step_body _ _ hx]
+      exact ⟨G, hG, by simp [ABlock.result, hown, hbody, built, applyOwn]⟩
+    | none =>
+      have hR : b.items.map AItem.line ++ b.bodyLines ++ G ++ X = (b.items.map AItem.line ++ G) ++ X := by
+        simp [ABlock.bodyLines, hbody]
+      have hfill : ∀ l ∈ b.items.map AItem.line ++ G, IsFiller l := by
+        intro l hl; simp only [List.mem_append] at hl
+        rcases hl with hl | hl
+        · exact Or.inr (hCl l hl)
+        · exact hG l hl
+      obtain ⟨G', g1, g2, g3⟩ := peekL_fillers (cfg := cfg) _ X hfill hX [] (Or.inl rfl)
+      rw [hR, g3, g2]
+      exact ⟨G', g1, by simp [ABlock.result, hown, hbody, built, applyOwn]⟩
+  · -- a first header line after comment lines
+    have hCok : ∀ it ∈ C, it.OK := fun it hit => hb.items it (by rw [hitems]; simp [hit])
+    have hCl := comments_lines C hCok hC
+    have hh : IsHdr l k v := hb.items (.hdr l k v) (by rw [hitems]; simp)
+    have hrest : ∀ it ∈ AItem.hdr l k v :: its2, it.OK := fun it hit => hb.items it (by
+      rw [hitems]; simp only [List.mem_append]; right; exact hit)
+    have hlne : l ≠ [] := by
+      obtain ⟨mid, hm⟩ := hh
+      exact trim_ne_nil (by rw [hm.trim]; cases hk : k <;> simp)
+    have h35 : (trimSpace l).head? ≠ some 35 := by
+      obtain ⟨mid, hm⟩ := hh
+      rw [hm.trim]
+      cases hk : k with
+      | nil => exact absurd hk hm.kne
+      | cons c t => have := hm.h35; rw [hk] at this; simpa using this
+    have hown : ownOf b.items = ownOf (AItem.hdr l k v :: its2) := by
+      rw [hitems, ownOf_append, ownOf_comments C hC]; rfl
+    have hR : b.items.map AItem.line ++ b.bodyLines ++ G ++ X =
+        C.map AItem.line ++ (l :: (its2.map AItem.line ++ b.bodyLines ++ G ++ X)) := by
+      rw [hitems]; simp [AItem.line]
+    rw [hR, peekL_comments _ hCl, peekL_line _ _ h35 hlne]
+    simp only [returns_hdr hh, Bool.false_eq_true, ↓reduceIte]
     have hcond : b.body ≠ none ∨ X = [] ∨ ∃ l ∈ G, IsBlank l := by
       by_cases hbn : b.body = none
       · by_cases hx : X = []
         · exact Or.inr (Or.inl hx)
-        · rcases hsep hbn hx with ⟨hi, _⟩ | hbl
-          · rw [hitems] at hi; cases hi
-          · exact Or.inr (Or.inr hbl)
+        · exact Or.inr (Or.inr (hsep hbn ⟨.hdr l k v, by rw [hitems]; simp, rfl⟩ hx))
       · exact Or.inl hbn
-    have hI := headerL_items cfg (it :: its) (by rw [← hitems]; exact hb.items)
-      (b.bodyLines ++ G ++ X) { method := b.m, url := b.u, body := cfg.body, header := cfg.hdr } h
+    have hI := headerL_items cfg (AItem.hdr l k v :: its2) hrest (b.bodyLines ++ G ++ X)
+      { method := b.m, url := b.u, body := cfg.body, header := (copyDefaults cfg.hdr h).1 } (copyDefaults cfg.hdr h).2
     obtain ⟨G', g1, g2⟩ := htail
-      { method := b.m, url := b.u, body := cfg.body, header := (applyOwn cfg.hdr h (ownOf (it :: its))).1 }
-      (applyOwn cfg.hdr h (ownOf (it :: its))).2 hcond
+      { method := b.m, url := b.u, body := cfg.body,
+        header := (applyOwn (copyDefaults cfg.hdr h).1 (copyDefaults cfg.hdr h).2 (ownOf (AItem.hdr l k v :: its2))).1 }
+      (applyOwn (copyDefaults cfg.hdr h).1 (copyDefaults cfg.hdr h).2 (ownOf (AItem.hdr l k v :: its2))).2 hcond
     refine ⟨G', g1, ?_⟩
-    rw [show (it :: its).map AItem.line ++ b.bodyLines ++ G ++ X = (it :: its).map AItem.line ++ (b.bodyLines ++ G ++ X) by simp]
-    rw [hI]
+    have hshape : l :: (its2.map AItem.line ++ b.bodyLines ++ G ++ X) =
+        (AItem.hdr l k v :: its2).map AItem.line ++ (b.bodyLines ++ G ++ X) := by simp [AItem.line]
+    rw [hshape, hI]
     simp only at g2
     rw [g2]
-    simp [ABlock.result, hitems]
-  | nil =>
-    simp only [List.map_nil, List.nil_append]
-    cases hbody : b.body with
-    | some x =>
-      have hx := hb.body x hbody
-      have hret : returnsAfterPeek ((b.bodyLines ++ G ++ X).head?.getD []) = false := by
-        simpa [ABlock.bodyLines, hbody] using returns_body hx
-      simp only [hret, Bool.false_eq_true, ↓reduceIte]
-      refine ⟨G, hG, ?_⟩
-      simp [ABlock.bodyLines, hbody, headerL, step_body _ h hx, ABlock.result, hitems, ownOf, applyOwn]
-    | none =>
-      simp only [ABlock.bodyLines, hbody, Option.toList_none, List.map_nil, List.nil_append]
-      have hres : b.result cfg h = ({ method := b.m, url := b.u, body := cfg.body, header := cfg.hdr }, h) := by
-        simp [ABlock.result, hitems, hbody, ownOf, applyOwn]
-      rw [hres]
-      cases hg : G with
-      | nil =>
-        simp only [List.nil_append]
-        rcases hX with hx | ⟨l, m', u', rest, hx, hreq⟩
-        · subst hx
-          refine ⟨[], by simp, ?_⟩
-          have : returnsAfterPeek [] = true := by decide
-          simp [this, afterPeek]
-        · subst hx
-          have hne : l ≠ [] := by
-            intro h0; have := hreq.trim; rw [h0] at this
-            have h1 : trimSpace [] = [] := by decide
-            rw [h1] at this
-            cases hm : m' <;> simp [hm] at this
-          refine ⟨[], by simp, ?_⟩
-          simp [returns_req hreq, afterPeek, hne]
-      | cons g G1 =>
-        have hg1 : ∀ l ∈ G1, IsFiller l := fun l hl => hG l (by simp [hg, hl])
-        rcases hG g (by simp [hg]) with hbl | hcm
-        · -- a blank line is peeked: consumed when exactly empty, else delivered again and skipped
-          simp only [List.cons_append, List.head?_cons, Option.getD_some, returns_blank hbl, ↓reduceIte, afterPeek]
-          by_cases h0 : g = []
-          · exact ⟨G1, hg1, by simp [h0]⟩
-          · exact ⟨g :: G1, by rw [← hg]; exact hG, by simp [h0]⟩
-        · simp only [List.cons_append, List.head?_cons, Option.getD_some, returns_comment hcm, Bool.false_eq_true, ↓reduceIte]
-          have hsep' : X = [] ∨ ∃ l ∈ G, IsBlank l := by
-            by_cases hx : X = []
-            · exact Or.inl hx
-            · rcases hsep hbody hx with ⟨_, hgn⟩ | hbl
-              · rw [hg] at hgn; cases hgn
-              · exact Or.inr hbl
-          obtain ⟨G', g1, g2⟩ := headerL_fillers cfg G X hG hsep'
-            { method := b.m, url := b.u, body := cfg.body, header := cfg.hdr } h
-          rw [hg] at g2
-          simp only [List.cons_append] at g2
-          exact ⟨G', g1, by rw [g2]⟩
-
+    simp [ABlock.result, hown, built]
 
 /-! ### whole documents of abstract blocks -/
 
@@ -352,13 +445,13 @@ def docLines (trail : List Bytes) : List ABlock → List Bytes
   | [] => trail
   | b :: bs => b.lead ++ core trail b bs
 
-/-- block separation on classified lines: after a block without body line, either the bare
-request line is directly followed by the next request line or a blank line comes first -/
+/-- block separation on classified lines: a block with header lines and no body line is followed
+by a blank line before the next block -/
 def ASep : List ABlock → Prop
   | [] => True
   | [_] => True
   | b :: b' :: rest =>
-    (b.body = none → (b.items = [] ∧ b'.lead = []) ∨ ∃ l ∈ b'.lead, IsBlank l) ∧ ASep (b' :: rest)
+    (b.body = none → (∃ it ∈ b.items, it.isHdr = true) → ∃ l ∈ b'.lead, IsBlank l) ∧ ASep (b' :: rest)
 
 /-- the targets the blocks yield one after the other, threading the heap -/
 def expectL (cfg : Cfg) : List ABlock → Heap → List (Outcome Target × Heap) × Heap
@@ -381,7 +474,7 @@ theorem callsL_core (cfg : Cfg) (trail : List Bytes) (htrail : ∀ l ∈ trail, 
   induction bs with
   | nil =>
     intro b F h hok _ hF
-    obtain ⟨G', g1, g2⟩ := callL_block cfg b (hok b (by simp)) F trail [] h hF htrail (Or.inl rfl) (fun _ hx => absurd rfl hx)
+    obtain ⟨G', g1, g2⟩ := callL_block cfg b (hok b (by simp)) F trail [] h hF htrail (Or.inl rfl) (fun _ _ hx => absurd rfl hx)
     refine ⟨G', g1, ?_⟩
     simp only [core, List.length_nil, callsL, expectL]
     simp only [List.append_nil] at g2 ⊢
@@ -395,7 +488,7 @@ theorem callsL_core (cfg : Cfg) (trail : List Bytes) (htrail : ∀ l ∈ trail, 
       | nil => exact ⟨_, _, _, _, rfl, hb'.req⟩
       | cons b2 r => exact ⟨_, _, _, _, rfl, hb'.req⟩
     obtain ⟨G', g1, g2⟩ := callL_block cfg b (hok b (by simp)) F b'.lead (core trail b' bs') h hF hb'.lead hX
-      (fun hbn _ => hsep.1 hbn)
+      (fun hbn hh _ => hsep.1 hbn hh)
     obtain ⟨G2, k1, k2⟩ := ih b' G' (b.result cfg h).2 (fun x hx => hok x (by simp at hx ⊢; right; exact hx)) hsep.2 g1
     refine ⟨G2, k1, ?_⟩
     rw [show (b' :: bs').length + 1 = (bs'.length + 1) + 1 by simp, callsL_succ]
